@@ -57,7 +57,9 @@ class Skip(Exception):
 # ------------------------------------------------------------------ registry
 class Obligation:
     def __init__(self, name, fn, kind="lia", expect="proved", samples=40, fuc=(), note="", bounded_only=False,
-                 max_paths=20000, stubs=None, timeout_ms=None, inductive=False):
+                 max_paths=20000, stubs=None, timeout_ms=None, inductive=False, preset=None, thorough_only=False):
+        self.preset = dict(preset or {})      # fixed outcomes of ctx.choice(name, ...) (splits a big case analysis over obligations)
+        self.thorough_only = thorough_only
         self.inductive = inductive    # obligation over a havoc'd (invariant-only) state: counter-models need not be reachable
         self.name = name
         self.fn = fn
@@ -152,11 +154,13 @@ class SymCtx(_CtxBase):
     def gt(self, a, b): return M.order(self.it, _CMP["gt"], a, b)
     def ge(self, a, b): return M.order(self.it, _CMP["ge"], a, b)
 
-    def __init__(self, it, rec):
+    def __init__(self, it, rec, preset=None):
         self.it = it
         self.rec = rec            # shared record across paths
+        self.preset = preset or {}
         self.inputs = {}          # name -> z3 term
         self.path_checks = 0
+        self.prefs = []           # soft constraints used only when extracting counter-models
 
     # ---- inputs
     def int(self, name, lo=None, hi=None):
@@ -187,6 +191,8 @@ class SymCtx(_CtxBase):
 
     def choice(self, name, options):
         """concrete choice among python objects: forks"""
+        if name in self.preset:
+            return options[self.preset[name]]
         t = z3.Int(name)
         self.it.pc.append(z3.And(t >= 0, t < len(options)))
         self.inputs[name] = ("int", t)
@@ -263,6 +269,11 @@ class SymCtx(_CtxBase):
     def cover(self, label):
         self.rec["covers"][label] = self.rec["covers"].get(label, 0) + 1
 
+    def prefer(self, cond):
+        """soft constraint: only used to pick a small, natively replayable counter-model"""
+        if isinstance(cond, Sym):
+            self.prefs.append(cond.t)
+
     def note(self, key, val):
         self.rec["notes"].setdefault(key, val)
 
@@ -286,7 +297,11 @@ class SymCtx(_CtxBase):
             rec["proved"] += 1
             return
         if r == z3.sat:
-            r2 = s.check(neg)
+            r2 = z3.unknown
+            if self.prefs:
+                r2 = s.check(neg, *self.prefs)       # prefer a small counter-model (replayable natively)
+            if r2 != z3.sat:
+                r2 = s.check(neg)
             inputs = {}
             if r2 == z3.sat:
                 m = s.model()
@@ -360,9 +375,10 @@ class NatCtx(_CtxBase):
     def gt(self, a, b): return a > b
     def ge(self, a, b): return a >= b
 
-    def __init__(self, inputs=None, rng=None):
+    def __init__(self, inputs=None, rng=None, preset=None):
         self.given = inputs
         self.rng = rng
+        self.preset = preset or {}
         self.used = {}
         self.failed = []          # labels of failed checks
         self.nchecks = 0
@@ -425,6 +441,8 @@ class NatCtx(_CtxBase):
         return v
 
     def choice(self, name, options):
+        if name in self.preset:
+            return options[self.preset[name]]
         if self.given is not None:
             i = int(self.given.get(name, 0))
         else:
@@ -494,6 +512,9 @@ class NatCtx(_CtxBase):
     def cover(self, label):
         pass
 
+    def prefer(self, cond):
+        pass
+
     def note(self, key, val):
         pass
 
@@ -510,7 +531,7 @@ def nat_equal(a, b):
 # ------------------------------------------------------------------ running one obligation
 def _run_symbolic(ob, rec):
     def body(it):
-        ctx = SymCtx(it, rec)
+        ctx = SymCtx(it, rec, ob.preset)
         try:
             ob.fn(ctx)
         except Raised as r:
@@ -528,7 +549,7 @@ def _run_symbolic(ob, rec):
 
 
 def _run_native_once(ob, inputs=None, rng=None):
-    ctx = NatCtx(inputs, rng)
+    ctx = NatCtx(inputs, rng, ob.preset)
     try:
         ob.fn(ctx)
     except Skip:
@@ -713,7 +734,10 @@ def run_property(reg, tier="quick", seed=0, jobs=None, only=None, level="proof",
     _REG = reg
     t0 = time.time()
     prop = reg.prop
-    idx = [i for i, o in enumerate(reg.obls) if only is None or fnmatch.fnmatchcase(o.name, only)]
+    idx = [i for i, o in enumerate(reg.obls) if (only is None or fnmatch.fnmatchcase(o.name, only))
+           and (tier == "thorough" or not o.thorough_only or only is not None)]
+    skipped_thorough = [o.name for o in reg.obls if o.thorough_only and tier != "thorough"]
+    reg.skipped_thorough = skipped_thorough
     if not idx:
         print(f"CRASH property={prop}: zero obligations generated")
         return 3
@@ -722,7 +746,15 @@ def run_property(reg, tier="quick", seed=0, jobs=None, only=None, level="proof",
     if jobs > 1 and len(tasks) > 1:
         ctx = mp.get_context("fork")
         with ctx.Pool(min(jobs, len(tasks))) as pool:
-            results = pool.map(_worker, tasks, chunksize=1)
+            if os.environ.get("VERIF_PROGRESS"):
+                results = []
+                for r in pool.imap_unordered(_worker, tasks, chunksize=1):
+                    print(f"  .. {r['verdict']:<18} {r['wall_s']:>8}s paths={r['paths']:<6} {r['name']}", flush=True)
+                    results.append(r)
+                order = {reg.obls[i].name: n for n, (i, _, _) in enumerate(tasks)}
+                results.sort(key=lambda r: order.get(r["name"], 0))
+            else:
+                results = pool.map(_worker, tasks, chunksize=1)
     else:
         results = [_worker(t) for t in tasks]
     kf = load_known_findings()
@@ -840,6 +872,7 @@ def write_evidence(reg, results, tier, seed, level, n_obl, n_dis, bounded, known
         "distinct_nontrivial": n_obl,
         "rule": "one obligation = one (function-or-lemma, clause) validity query over all inputs; distinct by name",
         "known_findings": [f"{n} :: {v['label']}" for n, v, k in known],
+        "obligations_only_in_thorough_tier": getattr(reg, "skipped_thorough", []),
         "undecided": [f"{n}: {w}" for n, w in undecided],
         "crashes": [f"{n}: {w}" for n, w in crashes],
         "per_obligation": [{"name": r["name"], "verdict": r["verdict"], "kind": r["kind"], "paths": r["paths"],
